@@ -341,6 +341,20 @@ fn run_session<T: Item + ItemA + 'static, const WK: bool>(mut s: Sess<T, WK>, li
     for h in s.held.iter_mut() { *h = None; }
     EXPECT_DROP.with(|c| c.set(false));
     writeln!(out, "live={}", fmt_list(&if T::OWNED { live_ids() } else { vec![] })).unwrap();
+    // `into_sync`: the synchronous iterator handed back is the wrapped one (same index, same remembered availability) and the wrapper's
+    // registered waker is released with it
+    macro_rules! unwrap_check { ($slot:expr, $k:expr, $name:expr) => {
+        if let Slot::Att(a) = std::mem::replace(&mut $slot, Slot::Gone) {
+            let (ix, ca) = (a.index(), mutringbuf::verif_hooks::cached_avail_async(&*a));
+            let it = (*a).into_sync();
+            if it.index() != ix || mutringbuf::verif_hooks::cached_avail(&it) != ca {
+                writeln!(out, "INTO-SYNC-MISMATCH {}: index {} -> {}, remembered availability {} -> {}", $name, ix, it.index(), ca, mutringbuf::verif_hooks::cached_avail(&it)).unwrap();
+            }
+            if s.wakers.registered($k) != "-" { writeln!(out, "INTO-SYNC-MISMATCH {}: the wrapper's registered waker (task {}) outlives into_sync", $name, s.wakers.registered($k)).unwrap(); }
+            EXPECT_DROP.with(|c| c.set(true)); drop(it); EXPECT_DROP.with(|c| c.set(false));
+        }
+    }}
+    unwrap_check!(s.p, 0, "P"); unwrap_check!(s.w, 1, "W"); unwrap_check!(s.c, 2, "C");
     EXPECT_DROP.with(|c| c.set(true));
     drop(s);
     EXPECT_DROP.with(|c| c.set(false));
@@ -356,7 +370,18 @@ fn run_cfg<T: Item + ItemA + 'static>(l: &str, lines: &[String], pos: &mut usize
     let len = init.len();
     let buf: ConcurrentHeapRB<T> = if ctor == "zeroed" || (all_zero && T::OWNED) { unsafe { ConcurrentHeapRB::new_zeroed(len) } } else { ConcurrentHeapRB::from(build::<T>(&init)) };
     WAKES.store(0, Ordering::SeqCst);
-    if stages == 3 {
+    // every second buffer is split into SYNC iterators that are then wrapped with the public `AsyncIterator::from_sync` (must be
+    // indistinguishable from `split_async` / `split_mut_async`)
+    let via_sync = { static N: std::sync::atomic::AtomicUsize = std::sync::atomic::AtomicUsize::new(0); N.fetch_add(1, Ordering::SeqCst) % 2 == 1 };
+    if via_sync && stages == 3 {
+        let (p, w, c) = mutringbuf::HeapSplit::split_mut(buf);
+        let (p, w, c) = (AsyncProdIter::from_sync(p), AsyncWorkIter::from_sync(w), AsyncConsIter::from_sync(c));
+        run_session::<T, true>(Sess { p: Slot::Att(Box::new(p)), w: Slot::Att(Box::new(w)), c: Slot::Att(Box::new(c)), held: [None, None, None], freed: false, len, task: 0, wakers: Wakers::new() }, lines, pos, out);
+    } else if via_sync {
+        let (p, c) = mutringbuf::HeapSplit::split(buf);
+        let (p, c) = (AsyncProdIter::from_sync(p), AsyncConsIter::from_sync(c));
+        run_session::<T, false>(Sess { p: Slot::Att(Box::new(p)), w: Slot::Gone, c: Slot::Att(Box::new(c)), held: [None, None, None], freed: false, len, task: 0, wakers: Wakers::new() }, lines, pos, out);
+    } else if stages == 3 {
         let (p, w, c) = buf.split_mut_async();
         run_session::<T, true>(Sess { p: Slot::Att(Box::new(p)), w: Slot::Att(Box::new(w)), c: Slot::Att(Box::new(c)), held: [None, None, None], freed: false, len, task: 0, wakers: Wakers::new() }, lines, pos, out);
     } else {
